@@ -142,6 +142,8 @@ def is_pure_native(fn):
 def iterate_concrete(eng, v):
     if isinstance(v, (tuple, list)):
         return list(v)
+    if isinstance(v, Obj) and "__items__" in v.fields:
+        return list(v.fields["__items__"].items)
     if isinstance(v, PList):
         if v.items is not None:
             return list(v.items)
@@ -702,6 +704,16 @@ def scalar_attr(eng, v, name):
 
 def foreign_method(pyf, name):
     def model(eng, recv, args, kwargs):
+        if name == "__init__" and isinstance(recv, Obj) and isinstance(recv.cls, type) and issubclass(recv.cls, list):
+            recv.fields["__items__"] = PList(iterate_concrete(eng, args[0]) if args else [])
+            return None
+        if isinstance(recv, Obj) and "__items__" in recv.fields:
+            if name == "__len__":
+                return len(recv.fields["__items__"].items)
+            if name == "__getitem__":
+                return getitem(eng, recv.fields["__items__"], args[0])
+            if name == "__iter__":
+                return Iter(recv.fields["__items__"])
         if name in ("__init__", "__init_subclass__", "__post_init__"):
             return None
         raise Unsupported(f"foreign method {getattr(pyf, '__qualname__', name)}")
@@ -710,6 +722,8 @@ def foreign_method(pyf, name):
 
 
 def foreign_init(eng, obj, pyf, args, kwargs):
+    if isinstance(obj.cls, type) and issubclass(obj.cls, list):
+        obj.fields["__items__"] = PList(iterate_concrete(eng, args[0]) if args else [])
     return None
 
 
